@@ -166,6 +166,14 @@ impl Recv {
         counts: &mut Counts,
     ) -> Result<(), RecvHeaderBlockError<Option<frame::Headers>>> {
         tracing::trace!("opening stream; init_window={}", self.init_window_sz);
+
+        // RFC 9113 8.1: an interim (1xx) response never ends the stream; a
+        // 1xx HEADERS frame carrying END_STREAM is malformed.
+        if frame.is_informational() && frame.is_end_stream() {
+            proto_err!(stream: "recv_headers: informational response with END_STREAM; stream={:?}", stream.id);
+            return Err(Error::library_reset(stream.id, Reason::PROTOCOL_ERROR).into());
+        }
+
         let is_initial = stream.state.recv_open(&frame)?;
 
         // Informational responses do not transition a remotely reserved stream
